@@ -350,3 +350,64 @@ def asan_writer_sweep(ck, tier, wd, rnd):
             ended[kind or "exit"] = ended.get(kind or "exit", 0) + 1
     ck.extra["alloc_asan_writer_runs"] = len(jobs); ck.extra["alloc_asan_writer_process_ended"] = ended
     return out
+
+
+def asan_tool_sweep(ck, tier, wd, rnd):
+    """C03: the command-line tools (ASan/UBSan builds, statically linked with the shim) on valid files while every allocation made
+    by zchunk's own code is refused in turn (ZV_ALLOCFAIL); heap corruption is a violation, a stop on NULL or on an assertion
+    is recorded.  Returns [(what, replay text)]"""
+    import re, subprocess
+    from concurrent.futures import ThreadPoolExecutor
+    bd = os.path.join(common.BUILD, "asan")
+    D = corpus.text(rnd, 90000); dictb = corpus.text(rnd, 2000)
+    d0 = os.path.join(wd, "astool"); os.makedirs(d0, exist_ok=True)
+    open(os.path.join(d0, "input.bin"), "wb").write(D); open(os.path.join(d0, "dict.bin"), "wb").write(dictb)
+    env0 = dict(os.environ); env0.update(common.ASAN_ENV)
+    subprocess.run([os.path.join(bd, "zck"), "-D", "dict.bin", "-o", "withdict.zck", "input.bin"], cwd=d0, env=env0, stdout=subprocess.DEVNULL, stderr=subprocess.DEVNULL, timeout=60)
+    subprocess.run([os.path.join(bd, "zck"), "-u", "-o", "flag4.zck", "input.bin"], cwd=d0, env=env0, stdout=subprocess.DEVNULL, stderr=subprocess.DEVNULL, timeout=60)
+    if not os.path.exists(os.path.join(d0, "withdict.zck")):
+        ck.notes.append("tool allocation sweep skipped: zck does not produce its output on this tree"); return []
+    RUNS = [("zck -D", ["zck", "-D", "dict.bin", "-o", "out.zck", "input.bin"]), ("zck -u -s", ["zck", "-u", "-s", "the", "-o", "out2.zck", "input.bin"]),
+            ("unzck", ["unzck", "-c", "withdict.zck"]), ("unzck flag4", ["unzck", "-c", "flag4.zck"]), ("unzck --dict", ["unzck", "-c", "--dict", "withdict.zck"]),
+            ("unzck --header", ["unzck", "-c", "--header", "withdict.zck"]), ("zck_read_header -c -f", ["zck_read_header", "-c", "-f", "flag4.zck"]),
+            ("zck_delta_size", ["zck_delta_size", "withdict.zck", "flag4.zck"])]
+    jobs = []
+    for ri, (name, argv) in enumerate(RUNS):
+        tr = os.path.join(d0, "cnt%d" % ri)
+        e = dict(env0); e["ZV_ALLOCTRACE"] = tr
+        subprocess.run([os.path.join(bd, argv[0])] + argv[1:], cwd=d0, env=e, stdout=subprocess.DEVNULL, stderr=subprocess.DEVNULL, timeout=120)
+        try:
+            n = int(open(tr).read().split()[0])
+        except (OSError, ValueError, IndexError):
+            n = 0
+        for k in _points(n, tier, rnd, 30):
+            jobs.append((ri, k, n))
+    def work(j):
+        ri, k, n = j
+        name, argv = RUNS[ri]
+        e = dict(env0); e["ZV_ALLOCFAIL"] = "%d:1" % k
+        try:
+            p = subprocess.run([os.path.join(bd, argv[0])] + argv[1:], cwd=d0, env=e, stdout=subprocess.DEVNULL, stderr=subprocess.PIPE, timeout=120)
+            return p.returncode, p.stderr.decode("latin1")
+        except subprocess.TimeoutExpired:
+            return "Hang", ""
+    with ThreadPoolExecutor(max_workers=max(2, common.NCPU // 2)) as ex:
+        res = list(ex.map(work, jobs))
+    out = []; ended = {}; seen = set()
+    for (ri, k, n), (rc, rep) in zip(jobs, res):
+        name, argv = RUNS[ri]
+        ck.case(("alloc-asan-tool", name, k))
+        m = re.search(r"ERROR: AddressSanitizer: ([a-z\-]+)", rep)
+        kind = "hang" if rc == "Hang" else (m.group(1) if m else None)
+        if kind in ("double-free", "heap-use-after-free", "heap-buffer-overflow", "stack-buffer-overflow", "global-buffer-overflow", "attempting", "bad-free", "hang"):
+            summ = [x for x in rep.splitlines() if x.startswith("SUMMARY")]
+            frames = [x.strip()[:110] for x in rep.splitlines() if "/src/" in x][:8]
+            key = (kind, summ[0][:120] if summ else name)
+            if key not in seen:
+                seen.add(key)
+                out.append(("`%s` with allocation %d of %d refused: %s %s ; frames: %s" % (name, k, n, kind, " | ".join(summ)[:300], " < ".join(frames)),
+                            "# in a directory with input.bin (90000 bytes of text) and dict.bin, withdict.zck = zck -D dict.bin, flag4.zck = zck -u:\n# ZV_ALLOCFAIL=%d:1 %s\n" % (k, " ".join(argv))))
+        elif kind or (isinstance(rc, int) and (rc < 0 or rc in (134, 139))):
+            ended[kind or "signal"] = ended.get(kind or "signal", 0) + 1
+    ck.extra["alloc_asan_tool_runs"] = len(jobs); ck.extra["alloc_asan_tool_process_ended"] = ended
+    return out
